@@ -237,7 +237,11 @@ def preempted_pair(framer, units, ignore_missing, chunk_a, chunk_b):
         ca.sock.out = []
         ca.sock.idle.clear()
         ca.sock.q.put(bytes(chunk_a))
-        was_parked = dec.parked.wait(3)
+        import time as _t
+        t0 = _t.time()
+        while _t.time() - t0 < 3 and not dec.parked.is_set() and not ca.sock.idle.is_set():
+            _t.sleep(0.001)           # (A is back in recv without having reached the decoder: nothing to pre-empt)
+        was_parked = dec.parked.is_set()
         out_b, _ = s.feed(b, chunk_b)
         dec.go.set()
         ca._wait()
@@ -473,8 +477,11 @@ class Session:
         self.saved_defaults = None
         if via_defaults:
             from pymodbus.constants import Defaults
-            self.saved_defaults = (Defaults.IgnoreMissingSlaves, Defaults.broadcast_enable)
+            self.saved_defaults = (Defaults.IgnoreMissingSlaves, Defaults.broadcast_enable, Defaults.UnitId)
             Defaults.IgnoreMissingSlaves, Defaults.broadcast_enable = bool(ignore_missing), bool(broadcast)
+            # ... and has changed a default that is none of the server's business: the unit id its CLIENTS address when none is
+            # given.  The broadcast address is 0 whatever that default says.
+            Defaults.UnitId = 1
             self.ignore_missing = None          # (the Twisted constructors get no option either)
         self.conns = []
         self.loop = None
@@ -583,7 +590,7 @@ class Session:
             self.loop.close()
         if self.saved_defaults is not None:
             from pymodbus.constants import Defaults
-            Defaults.IgnoreMissingSlaves, Defaults.broadcast_enable = self.saved_defaults
+            Defaults.IgnoreMissingSlaves, Defaults.broadcast_enable, Defaults.UnitId = self.saved_defaults
             self.saved_defaults = None
 
 
